@@ -164,13 +164,20 @@ def check(sc, r):
         tr = r.evts(lab, "EVT_FSM_TRANSITION")
         if not tr:
             continue
+        cause = "other"
         if tr[-1]["next"] != "Sta1" or st["fsm"] != "Sta1":
-            out.append(C.v("back-to-idle", "C05/not-idle/%s/%s" % (lab[:3], st["fsm"]),
+            if lab.startswith("acc") and not r.evts(lab, "EVT_REQUESTED") and not st.get("dul_alive"):
+                # the association thread gave up waiting for the A-ASSOCIATE-RQ (ACSE timeout) and stopped the provider
+                cause = "request-not-received-within-acse-timeout"
+            if lab.startswith("req") and any(h.get("origin") == "_negotiate_as_requestor" for h in r.evts(lab, "EVT_ABORTED")):
+                # the provider reported an abort while the requestor was negotiating; ACSE stops the DUL thread at once
+                cause = "aborted-during-negotiation"
+            out.append(C.v("back-to-idle", "C05/not-idle/%s/%s/%s" % (lab[:3], st["fsm"], cause),
                            "%s provider ended in %s (last transition %s+%s->%s)" % (lab, st["fsm"], tr[-1]["state"], tr[-1]["fsm_event"], tr[-1]["next"])))
         if st.get("dul_alive") or st.get("alive"):
             out.append(C.v("back-to-idle", "C05/thread-left/%s" % lab[:3], "%s: threads still running at the end: %s" % (lab, st)))
         if r.evts(lab, "EVT_CONN_OPEN") and not st.get("sock_closed"):
-            out.append(C.v("back-to-idle", "C05/socket-open/%s/%s" % (lab[:3], st["fsm"]), "%s: transport connection not closed at the end: %s" % (lab, st)))
+            out.append(C.v("back-to-idle", "C05/socket-open/%s/%s/%s" % (lab[:3], st["fsm"], cause), "%s: transport connection not closed at the end: %s" % (lab, st)))
     return out
 
 
